@@ -31,6 +31,9 @@ type c02Input struct {
 	Resume    string `json:"resume,omitempty"`     // "" | "cross-config": session created by an insecure config, offered by this one
 	Name      string `json:"name,omitempty"`       // the client's ServerName ("" = server.test): another DNS name or an IP literal
 	TimeShift int    `json:"time_shift,omitempty"` // resume: the verifying configuration's clock is this many years later
+	// full handshake: the client's configured clock = the fixed clock + ClockYears years + ClockMin minutes
+	ClockYears int `json:"clock_years,omitempty"`
+	ClockMin   int `json:"clock_min,omitempty"`
 }
 
 type c02View struct {
@@ -62,6 +65,10 @@ func c02Chain(name string) (chain [][]byte, sig, enc *tk.Leaf) {
 		return [][]byte{pk.ExpiredSig.DER, pk.SrvEnc.DER}, pk.ExpiredSig, pk.SrvEnc
 	case "mixed-expired-enc":
 		return [][]byte{pk.SrvSig.DER, pk.ExpiredEnc.DER}, pk.SrvSig, pk.ExpiredEnc
+	case "mixed-future-sig":
+		return [][]byte{pk.FutureSig.DER, pk.SrvEnc.DER}, pk.FutureSig, pk.SrvEnc
+	case "mixed-future-enc":
+		return [][]byte{pk.SrvSig.DER, pk.FutureEnc.DER}, pk.SrvSig, pk.FutureEnc
 	case "mixed-name-sig":
 		return [][]byte{pk.Srv2Sig.DER, pk.SrvEnc.DER}, pk.Srv2Sig, pk.SrvEnc
 	case "rsa":
@@ -79,6 +86,10 @@ func c02VerifyAt(der []byte, shiftYears int) bool {
 }
 
 func c02VerifyName(der []byte, shiftYears int, name string) bool {
+	return c02VerifyClock(der, shiftYears, 0, name)
+}
+
+func c02VerifyClock(der []byte, shiftYears, shiftMin int, name string) bool {
 	if name == "" {
 		name = "server.test"
 	}
@@ -87,7 +98,7 @@ func c02VerifyName(der []byte, shiftYears int, name string) bool {
 	if err != nil {
 		return false
 	}
-	_, err = c.Verify(x509.VerifyOptions{Roots: pk.CA.Pool, CurrentTime: tk.Now().AddDate(shiftYears, 0, 0), DNSName: name, Intermediates: x509.NewCertPool()})
+	_, err = c.Verify(x509.VerifyOptions{Roots: pk.CA.Pool, CurrentTime: tk.EPConfig{TimeShiftYears: shiftYears, TimeShiftMin: shiftMin}.Clock(), DNSName: name, Intermediates: x509.NewCertPool()})
 	return err == nil
 }
 
@@ -99,7 +110,7 @@ func c02Run(in c02Input) (view [10]int, accepted bool, complete bool, delivered 
 		return 0
 	}
 	reg := tk.NewRegistry()
-	cc := tk.EPConfig{Suites: []uint16{in.Suite}, Ident: "cli", ServerName: "server.test", Insecure: in.Insecure}
+	cc := tk.EPConfig{Suites: []uint16{in.Suite}, Ident: "cli", ServerName: "server.test", Insecure: in.Insecure, TimeShiftYears: in.ClockYears, TimeShiftMin: in.ClockMin}
 	if in.Name != "" {
 		cc.ServerName = in.Name
 	}
@@ -178,10 +189,10 @@ func c02Run(in c02Input) (view [10]int, accepted bool, complete bool, delivered 
 	view[0] = len(chain)
 	view[1] = b2i(parseOK)
 	if len(chain) > 0 {
-		view[2] = b2i(c02VerifyName(chain[0], 0, in.Name))
+		view[2] = b2i(c02VerifyClock(chain[0], in.ClockYears, in.ClockMin, in.Name))
 	}
 	if len(chain) > 1 {
-		view[3] = b2i(c02VerifyName(chain[1], 0, in.Name))
+		view[3] = b2i(c02VerifyClock(chain[1], in.ClockYears, in.ClockMin, in.Name))
 	}
 	var sigPub *ecdsa.PublicKey
 	if len(certs) > 0 && certs[0] != nil {
@@ -291,6 +302,15 @@ func runC02(p params) error {
 					in := base
 					in.Name = nm
 					c02AddCase(out, "name-"+map[bool]string{true: "ip", false: "dns"}[strings.ContainsAny(nm, ":") || nm[0] >= '0' && nm[0] <= '9'], in)
+				}
+				// the configured clock two minutes before / after the start and the end of a chain's validity
+				// (the "future" chain is valid from the fixed clock + 1 year to + 2 years)
+				for _, ck := range [][2]int{{1, -2}, {1, 2}, {2, -2}, {2, 2}} {
+					for _, ch := range []string{"future", "mixed-future-sig", "mixed-future-enc"} {
+						in := base
+						in.Chain, in.ClockYears, in.ClockMin = ch, ck[0], ck[1]
+						c02AddCase(out, "clock-at-validity-boundary", in)
+					}
 				}
 				in := base
 				in.Fin = "wrong"
